@@ -85,8 +85,8 @@ Fixpoint poly_eval (x : N) (l : bytes) : N :=
 Definition corr_hash (k : bytes) : bytes :=
   map (fun x => poly_eval x (N.of_nat (length k) :: k)) [2; 3; 5; 7]
   ++ map N.of_nat (seq 4 28).
-Definition c_new_secret_key := new_secret_key toy_kdf corr_hash.
-Definition c_derive_key := derive_key toy_kdf corr_hash.
+Definition c_new_secret_key := new_secret_key (toy_kdf corr_hash) corr_hash.
+Definition c_derive_key := derive_key (toy_kdf corr_hash) corr_hash.
 
 (** * Cases *)
 
@@ -197,11 +197,21 @@ Definition params_ok (x : params_case) : bool :=
     && forallb (fun mo => (snd mo =? 4) || (fst mo =? snd mo)) (combine model (qc_flips x))
   end.
 
+(** NewSecretKey with parameters scrypt refuses: an error, no key. *)
+Definition create_fail_ok (x : bytes * Z * Z * Z) : bool :=
+  let '(pw, n, r, p) := x in
+  match c_new_secret_key pw (Some (zero_bytes KeySize)) n r p with
+  | Err ErrKdf => true
+  | _ => false
+  end.
+
 Inductive case :=
 | CCipher (x : cipher_case)
 | CMgr (x : mgr_case)
 | CPass (x : pass_case)
-| CParams (x : params_case).
+| CParams (x : params_case)
+| CCreateFail (x : bytes * Z * Z * Z)
+| CUnknown.
 
 Definition case_ok (c : case) : bool :=
   match c with
@@ -209,6 +219,8 @@ Definition case_ok (c : case) : bool :=
   | CMgr x => mgr_ok x
   | CPass x => pass_ok x
   | CParams x => params_ok x
+  | CCreateFail x => create_fail_ok x
+  | CUnknown => false
   end.
 
 Fixpoint mismatches_from {A} (f : A -> bool) (i : nat) (l : list A) : list nat :=
